@@ -18,6 +18,7 @@ PROFILE = gen.Profile(
     providers=("machine", "model", "L0", "L1"),
     p_nested=0.3, p_raise=0.1, p_validator_raise=0.1, p_unknown_event=0.08, n_ops=(3, 8),
     p_rtc_off=0.25, p_allow=0.3, p_cur0=0.2, p_start=0.3, p_activate=0.05,
+    p_attr=0.35, p_model_shape=0.35, p_listener_kind=0.45,
 )
 PROFILE_ASYNC = gen.Profile(**{**PROFILE.__dict__, "p_coro": 0.35, "drivers": ("facade", "loop")})
 
